@@ -716,8 +716,8 @@ func runC26(env *mc.Env) {
 			Init:     []mc.Node[*c26State]{{State: c26Init(vm)}},
 			MaxDepth: depth,
 			Ops: func(n *mc.Node[*c26State]) []string {
-				// the last level uses one-call transactions only (quick tier)
-				return c26Ops(n.State.M, env.Thorough(), !env.Thorough() && n.Depth == depth-1)
+				// the last level uses one-call transactions only
+				return c26Ops(n.State.M, env.Thorough(), n.Depth == depth-1)
 			},
 			Step: func(n *mc.Node[*c26State], op string) (*c26State, bool) {
 				st := n.State.clone()
@@ -763,7 +763,7 @@ func replayC26(env *mc.Env, raw json.RawMessage) (bool, string) {
 func init() {
 	mc.Register(&mc.Check{
 		ID: "C26",
-		Rule: "explicit-state BFS (depth 3 transactions, thorough 4) over contract lifecycle transactions on 2 accounts x names {A,B} x sources {v1, compatible v2, incompatible v3, with-enum, type-error, name-mismatch}: " +
+		Rule: "explicit-state BFS (depth 3 transactions, thorough 4; the last level uses one-call transactions only) over contract lifecycle transactions on 2 accounts x names {A,B} x sources {v1, compatible v2, incompatible v3, with-enum, type-error, name-mismatch}: " +
 			"one or two calls of add/update/tryUpdate/remove per transaction (pairs on the same name), optionally followed by a panic; each call's outcome, the transaction's own names/get view, the AccountContract* events of successful transactions, " +
 			"and after every committed transaction a fresh-runtime view (names, get, borrow<&{CI}>, imports running the deployed code on the kept contract value, import of a missing contract) are compared with a per-account Go model; both engines. " +
 			"non-trivial = distinct (call, deployment state) pairs that succeeded or were reported failed by tryUpdate",
